@@ -477,6 +477,43 @@ func cmdCheck(args []string) int {
 			exit = 1
 		}
 	}
+	// A contract that no longer resolves against the current code cannot be decided deductively; if the function has a
+	// replay harness, a concrete failing input on the real code is still a sound violation report.
+	if !*update && len(undecided) > 0 && exit == 0 {
+		ran := map[string]bool{}
+		for _, r := range results {
+			if len(r.Errors) == 0 {
+				continue
+			}
+			for _, b := range append(append([]BoundedCheck{}, cfg.Bounded...), cfg.Replay...) {
+				if b.Function != r.Key || ran[b.Harness] {
+					continue
+				}
+				ran[b.Harness] = true
+				_, log := runHarness(prog.RepoDir, b.Pkg, b.Harness, b.Test, map[string]string{"TVC_TIER": *tier})
+				var fails []string
+				for _, l := range strings.Split(log, "\n") {
+					if i := strings.Index(l, "TVC-FAIL "); i >= 0 {
+						fails = append(fails, strings.TrimSpace(l[i+9:]))
+					}
+				}
+				if len(fails) > 0 {
+					violations++
+					os.MkdirAll(replayDir, 0o755)
+					path := filepath.Join(replayDir, mangle(r.Key+"_harness")+".json")
+					if len(fails) > 5 {
+						fails = fails[:5]
+					}
+					rep := map[string]interface{}{"property": id, "obligation": r.Key + "#contract-unresolved", "function": r.Key, "reason": "the contract no longer resolves against the changed code (" + strings.Join(r.Errors, "; ") + "); the function's replay harness found failing inputs on the real code",
+						"failing_inputs_on_real_code": fails, "replay_harness": b.Harness, "replay_confirmed": true}
+					bts, _ := json.MarshalIndent(rep, "", " ")
+					os.WriteFile(path, bts, 0o644)
+					fmt.Printf("VIOLATION property=%s replay=%s\n  %s: contract unresolved on the changed code; replay harness fails on the real code: %s\n", id, path, r.Key, fails[0])
+					exit = 1
+				}
+			}
+		}
+	}
 	if len(undecided) > 0 || len(missing) > 0 || len(vacuityBad) > 0 {
 		for _, u := range undecided {
 			fmt.Println("UNDECIDED:", u)
